@@ -41,8 +41,9 @@ GALOIS_SRCS = [
     "Timer.cpp", "Tracer.cpp", "HWTopoLinux.cpp",
 ]
 
-COMMON = ["-std=c++17", "-DGALOIS_VERIF", "-DGALOIS_USE_SCHED_SETAFFINITY",
-          "-DGALOIS_HAVE_PTHREAD", "-w"]
+COMMON0 = ["-std=c++17", "-DGALOIS_USE_SCHED_SETAFFINITY",
+           "-DGALOIS_HAVE_PTHREAD", "-w"]
+COMMON = COMMON0 + ["-DGALOIS_VERIF"]  # hooks on: only the gsched engine needs them
 
 FLAVORS = {
     # engine E1: TSan compiler instrumentation only; we provide the runtime
@@ -52,15 +53,15 @@ FLAVORS = {
         "-mllvm", "-tsan-instrument-func-entry-exit=0",
         "-mllvm", "-tsan-handle-cxx-exceptions=0"], link=[]),
     # engine E2: ASan, single threaded enumeration
-    "asan": dict(cxx="g++", flags=COMMON + [
+    "asan": dict(cxx="g++", flags=COMMON0 + [
         "-O1", "-g", "-fsanitize=address", "-fno-omit-frame-pointer"],
         link=["-fsanitize=address"]),
     # like asan but with asserts off (shipped configuration)
-    "asan_ndebug": dict(cxx="g++", flags=COMMON + [
+    "asan_ndebug": dict(cxx="g++", flags=COMMON0 + [
         "-O1", "-g", "-DNDEBUG", "-fsanitize=address",
         "-fno-omit-frame-pointer"], link=["-fsanitize=address"]),
-    "plain": dict(cxx="g++", flags=COMMON + ["-O2", "-g", "-DNDEBUG"], link=[]),
-    "realtsan": dict(cxx="clang++", flags=COMMON + [
+    "plain": dict(cxx="g++", flags=COMMON0 + ["-O2", "-g", "-DNDEBUG"], link=[]),
+    "realtsan": dict(cxx="clang++", flags=COMMON0 + [
         "-O1", "-g", "-DNDEBUG", "-fsanitize=thread"],
         link=["-fsanitize=thread"]),
 }
